@@ -191,23 +191,35 @@ def build(job: Job, workdir: str) -> Tuple[Optional[str], str]:
 
 
 def list_functions(gb: str, entry: str) -> List[str]:
-    """Functions that remain after dropping everything unreachable from the entry."""
+    """Functions with a body that are reachable from the entry in the static call graph (what CBMC encodes after
+    --drop-unused-functions; callees reached only through function pointers are added by CBMC's own
+    function-pointer removal and are not listed here)."""
     try:
-        tmp = gb + ".lf.gb"
-        subprocess.run(["goto-instrument", "--function", entry, "--drop-unused-functions", gb, tmp],
-                       stdout=subprocess.DEVNULL, stderr=subprocess.DEVNULL, timeout=120)
-        src = tmp if os.path.exists(tmp) else gb
-        p = subprocess.run(["goto-instrument", "--list-goto-functions", src],
+        p = subprocess.run(["goto-instrument", "--list-goto-functions", gb],
                            stdout=subprocess.PIPE, stderr=subprocess.DEVNULL, text=True, timeout=120)
-        fns = []
+        has_body = set()
         for l in p.stdout.splitlines():
             l = l.strip()
-            if not l or l.startswith("Reading") or l.startswith("__CPROVER") or " " in l:
+            if not l or l.startswith("Reading"):
                 continue
-            fns.append(l)
-        if os.path.exists(tmp):
-            os.remove(tmp)
-        return sorted(set(fns))
+            name = l.split()[0]
+            if "body not available" not in l:
+                has_body.add(name)
+        p = subprocess.run(["goto-instrument", "--call-graph", gb],
+                           stdout=subprocess.PIPE, stderr=subprocess.DEVNULL, text=True, timeout=120)
+        edges = {}
+        for l in p.stdout.splitlines():
+            if " -> " in l:
+                a_, b_ = l.strip().split(" -> ", 1)
+                edges.setdefault(a_.strip(), set()).add(b_.strip())
+        seen, todo = {entry}, [entry]
+        while todo:
+            f = todo.pop()
+            for g in edges.get(f, ()):
+                if g not in seen:
+                    seen.add(g)
+                    todo.append(g)
+        return sorted(f for f in seen if f in has_body and not f.startswith("__CPROVER"))
     except Exception:
         return []
 
